@@ -958,9 +958,15 @@ def _run(ctx, r, bench):
     # ---- stream 2b: statement files (date cells in every shape an export uses); oracle + the same two correspondences
     st_stat = {'files': 0, 'detected': 0, 'suggestion_names_the_format_the_dates_were_written_with': 0, 'transactions_read_back': 0,
                'suggested_date_formats': {}, 'date_shapes': {}}
+    date_cells = {}      # (date format, date cell as parse_generic_csv hands it to strptime) of every statement: for the model of strptime
     for i in range(150 if quick else 4000):
         st = gen_statement(r)
         rep, f, reads = oracle_statement(bench, st)
+        for fmt_ in {st['date_format'], rep.get('date_format') or st['date_format']}:
+            for t_ in st['truth']:
+                c_ = t_['date_cell'].strip()
+                if c_:
+                    date_cells[(fmt_, c_ if ' ' in fmt_ else c_.split()[0])] = t_['date']
         if f:
             prop_fail.append(f)
         read_back = bench.read_headers()
@@ -979,6 +985,25 @@ def _run(ctx, r, bench):
             st_stat['suggestion_names_the_format_the_dates_were_written_with'] += 1
             st_stat['transactions_read_back'] += sum(1 for t in st['truth'] if t['date'] is not None)
     ctx.notes['statement_files'] = st_stat
+    # the date cells of the statements through the Lean model of datetime.strptime (Model/Strptime.lean; theorems in Props/C05):
+    # the model and CPython agree on every (format, cell), and a cell written with the statement's own format reads back as its date
+    try:
+        from . import strptime_corr
+        keys = sorted(date_cells, key=lambda k: (k[0], k[1]))
+        outs = common.Driver().batch([strptime_corr.model_line(f_, c_) for f_, c_ in keys])
+        sfail = []
+        for (f_, c_), m_ in zip(keys, outs):
+            py_ = strptime_corr.py_strptime(c_, f_)
+            if m_.get('err') == 'unsupported':
+                continue
+            if ({'ok': m_['ok']} if 'ok' in m_ else {'err': m_.get('err')}) != ({'ok': py_['ok']} if 'ok' in py_ else {'err': py_['err']}):
+                sfail.append({'format': f_, 'cell': c_, 'datetime.strptime': py_, 'Strptime.strptime': {k: v for k, v in m_.items() if k not in ('id', 'pattern')}})
+        ctx.obligation('correspondence:datetime.strptime-vs-Strptime.strptime(statement date cells)', 'correspondence', not sfail, cases=len(keys),
+                       error=json.dumps(sfail[0], default=str)[:1200] if sfail else None)
+        ctx.notes['statement_date_cells_through_strptime_model'] = {'pairs': len(keys), 'read_as_a_date_by_the_model': sum('ok' in m_ for m_ in outs)}
+    except Exception as e:
+        ctx.obligation('correspondence:datetime.strptime-vs-Strptime.strptime(statement date cells)', 'correspondence', False,
+                       error=f'{type(e).__name__}: {e}'[:400])
     # ---- stream 2c: headers with keywords of SEVERAL roles, where the roles are still unfilled / already filled, among plain headers
     mr_stat = {'rows': 0, 'headers_matching_2_roles': 0, 'headers_matching_3_roles': 0, 'reached_with_all_its_roles_unfilled': 0,
                'reached_with_some_of_its_roles_filled': 0, 'reached_with_all_its_roles_filled': 0, 'serves_a_role': 0,
